@@ -20,7 +20,7 @@ ASSUMPTIONS = [
     "for chunk-local codes the partition is observed through groups, size() and first(arange(n), transform=True)",
     "labels of integer keys holding nulls may come back as floats; labels are compared by value",
 ]
-N_CASES = {"quick": 1100, "thorough": 26000}
+N_CASES = {"quick": 1100, "thorough": 12000}
 KC_SHARDS = [["np"], ["np", "pd"], ["pd", "pd_index"], ["pa"], ["pl"], ["pd_arrow"], ["pa_chunked"], ["pd_arrow_chunked"],
              ["np"], ["np"], ["np", "pa", "pl"], ["pd", "pd_arrow"]]
 
